@@ -123,6 +123,8 @@ pub fn full_oracle(cfg: &Cfg, r: &RunOut, truth: &Truth, stable: bool) -> String
     } else {
         fails.push("C04:panic in the strategy loop".to_string());
         fails.push("C16:panic in the strategy loop".to_string());
+        // C07: exhausting the sequence budget must end with a capacity error, never an out-of-bounds access
+        fails.push("C07:panic in the strategy loop (round buffer / sequence arithmetic)".to_string());
     }
     // C01: the per-hop totals in the snapshot are the sums of the published outcomes
     if let Some(st) = &r.snapshot {
